@@ -33,7 +33,7 @@ def run(tier, replay=None):
             raise core.MachineryFailure('CompletionGen failed: %s' % gen.error)
         ck.add_tlc(gen)
         ctxs = sorted([r for r in gen.records if isinstance(r, dict) and 'pre' in r], key=lambda v: json.dumps(v, sort_keys=True))
-        if len(ctxs) != 4680:
+        if len(ctxs) != 14040:
             raise core.MachineryFailure('CompletionGen produced %d contexts' % len(ctxs))
         files = sorted(glob.glob(os.path.join(core.REPO, 'supp', '*.py')) + glob.glob(os.path.join(core.REPO, 'tests', '*.py')))
         stdlib = sysconfig.get_paths()['stdlib']
@@ -85,7 +85,7 @@ def run(tier, replay=None):
         ck.extra.update({'contexts_enumerated': len(ctxs), 'contexts_instantiated': len([c for c in cases if 'cx' in c['meta']]),
                          'real_file_calls': len([c for c in cases if 'file' in c['meta']]),
                          'transparency_checked': len([c for c in cases if c['transparent']]), 'failing_calls': len({f[2] for f in fails})})
-        ck.rule = ('cursor contexts = every (preceding class x run length 0..3 x following class x syntactic context) of Completion.tla for which a '
+        ck.rule = ('cursor contexts = every (preceding class x run length 0..3 x alphabet (ASCII, underscore+digits, non-ASCII letters) x following class x syntactic context) of Completion.tla for which a '
                    'template parses with the mark; plus cursors at the end of and inside name reads and attribute accesses (loads and stores) of real '
                    'files; non-trivial = a context whose preceding class is not space/dot/"(", or a real-file call with the transparency clause; '
                    'distinct by context / (file, position)')
